@@ -128,19 +128,22 @@ func genOp(r rnd) fsx.Op {
 // the number of distinct table states reached.
 type seqOpts struct {
 	prop      string
-	stopAfter int // issue Stop after this many ops (-1 = after all)
+	stopAfter int  // run only this many ops (-1 = all)
+	stop      bool // then call Session.Stop and check that everything bound was released exactly once
 	plan      map[int]fsx.Fault
 	desc      string
 }
 
 type seqResult struct {
-	states   int
-	trace    string
-	fsCalls  int
-	violated bool
-	boundMax int
-	fs       *fsx.FS
-	labels   []string
+	states       int
+	trace        string
+	fsCalls      int
+	violated     bool
+	boundMax     int
+	fs           *fsx.FS
+	labels       []string
+	boundAtEnd   int
+	stopReleased int
 }
 
 func seqRun(w *mon.W, ops []fsx.Op, opt seqOpts) seqResult {
@@ -220,6 +223,56 @@ func seqRun(w *mon.W, ops []fsx.Op, opt seqOpts) seqResult {
 	res.states = len(states)
 	res.trace = strings.Join(trace, ";")
 	res.fsCalls = fs.Calls()
+	res.boundAtEnd = len(model.T)
+	if !opt.stop {
+		return res
+	}
+	// Session.Stop: every entry still bound must be released by exactly one Clunk.
+	base := fs.Calls()
+	fin := make(chan struct{})
+	go func() { sess.Stop(nil); close(fin) }()
+	if q := mon.AwaitQuiesce(fin); q.Hung {
+		report("hang", "hang:stop:"+q.Sites, fmt.Sprintf("Stop has not returned although the process is quiescent (blocked at %s)", q.Sites))
+		return res
+	} else if q.Inconclusive {
+		w.Inconclusive("watchdog fired during Stop")
+		return res
+	}
+	done = append(done, "Stop")
+	stopCalls := fs.LogSince(base)
+	want := map[int]bool{}
+	for _, f := range model.T {
+		want[f.H.ID] = true
+	}
+	for _, c := range stopCalls {
+		if c.Op != "clunk" || !want[c.H] {
+			report("mismatch", "stop:unexpected-call", fmt.Sprintf("Stop made the FS call %v; bound handles were %v", c, want))
+			return res
+		}
+		delete(want, c.H)
+		res.stopReleased++
+	}
+	if len(want) > 0 {
+		report("leak", "stop:not-released", fmt.Sprintf("Stop did not release %d bound entr(y/ies): handles %v", len(want), want))
+		return res
+	}
+	if tab, ok := p9p.VerifFidTable(sess); ok {
+		for _, e := range tab {
+			if e.Locked || e.Ent != nil {
+				report("leak", "stop:still-bound", fmt.Sprintf("after Stop fid %d is still bound (locked=%v ent=%v)", e.Fid, e.Locked, e.Ent))
+				return res
+			}
+		}
+	}
+	if ps := fs.Problems(); len(ps) > problemsSeen {
+		p := ps[problemsSeen]
+		report(p.Kind, p.Kind+":stop", "during Stop: "+p.Msg)
+		return res
+	}
+	for _, p := range fs.FinalCheck() {
+		report(p.Kind, p.Kind+":final", "after Stop: "+p.Msg)
+		return res
+	}
 	return res
 }
 
